@@ -306,6 +306,38 @@ func runHistory(spec *SeqSpec, hist []SeqEvent) *SeqRun {
 			}
 			return d
 		}
+		// loggedDrive: one step of the applier inside a compound event, logged exactly like a
+		// separate applier event (which buffered item it consumed, accounting changes)
+		loggedDrive := func(app, pick int) {
+			head := c.BufShadow()
+			costsBefore := c.PolicyCosts()
+			st := vsched.Drive(app, pick)
+			for st == vsched.DriveChoice {
+				st = vsched.Drive(app, 0)
+			}
+			if after := c.BufShadow(); len(head) > 0 && (len(after) == 0 || after[0] != head[0]) {
+				if it, ok := ristretto.VerifItem[int64](head[0]); ok {
+					v, _ := it.Value.(int64)
+					fl := int64(it.Flag)
+					if it.IsWait {
+						fl = 3
+					}
+					vsched.Log(evApplied, int64(it.Key), v, fl)
+					vsched.Log(evItemCost, int64(it.Key), it.Cost, 0)
+				}
+			}
+			before := map[uint64]int64{}
+			for _, kc := range costsBefore {
+				before[kc.Key] = kc.Cost
+			}
+			for _, kc := range c.PolicyCosts() {
+				if old, had := before[kc.Key]; !had {
+					vsched.Log(evCost, int64(kc.Key), -1, kc.Cost)
+				} else if old != kc.Cost {
+					vsched.Log(evCost, int64(kc.Key), old, kc.Cost)
+				}
+			}
+		}
 		for i, e := range hist {
 			if i == len(hist)-1 {
 				run.Pre = snapshot()
@@ -361,10 +393,7 @@ func runHistory(spec *SeqSpec, hist []SeqEvent) *SeqRun {
 							break
 						}
 						before := tickPending()
-						st := vsched.Drive(app, pickT)
-						for st == vsched.DriveChoice {
-							st = vsched.Drive(app, 0)
-						}
+						loggedDrive(app, pickT) // (an applier holding an item it was handed directly applies that first)
 						if tickPending() < before {
 							vsched.Log(evSweep, 0, 0, 0)
 						}
@@ -384,34 +413,7 @@ func runHistory(spec *SeqSpec, hist []SeqEvent) *SeqRun {
 						if len(descs) == 0 || descs[0].Partner >= 0 {
 							break
 						}
-						head := c.BufShadow()
-						costsBefore := c.PolicyCosts()
-						st := vsched.Drive(app, 0)
-						for st == vsched.DriveChoice {
-							st = vsched.Drive(app, 0)
-						}
-						if after := c.BufShadow(); len(after) == 0 || after[0] != head[0] {
-							if it, ok := ristretto.VerifItem[int64](head[0]); ok {
-								v, _ := it.Value.(int64)
-								fl := int64(it.Flag)
-								if it.IsWait {
-									fl = 3
-								}
-								vsched.Log(evApplied, int64(it.Key), v, fl)
-								vsched.Log(evItemCost, int64(it.Key), it.Cost, 0)
-							}
-						}
-						before := map[uint64]int64{}
-						for _, kc := range costsBefore {
-							before[kc.Key] = kc.Cost
-						}
-						for _, kc := range c.PolicyCosts() {
-							if old, had := before[kc.Key]; !had {
-								vsched.Log(evCost, int64(kc.Key), -1, kc.Cost)
-							} else if old != kc.Cost {
-								vsched.Log(evCost, int64(kc.Key), old, kc.Cost)
-							}
-						}
+						loggedDrive(app, 0)
 					}
 					run.Status = append(run.Status, "env")
 					continue
